@@ -454,6 +454,9 @@ pub enum Fault {
     Raw(Vec<u8>),
     /// no final ack (reads time out).
     NoAck,
+    /// the device is slower than the host's timeout: the receive that would deliver the final
+    /// ack times out once, the ack arrives afterwards (it stays in the pipe).
+    LateAck,
     /// apply the inner packet mutation to the `k`-th pending ack of this transaction.
     OnPending(u64, Box<Fault>),
 }
@@ -487,11 +490,11 @@ pub enum Wire {
     Claim(u8, Option<UsbErr>),
     Release(u8, Option<UsbErr>),
     ClearHalt(u8, Option<UsbErr>),
-    Control { request_type: u8, request: u8, value: u16, index: u16, err: Option<UsbErr> },
-    /// bytes handed to `write_bulk` (also when the fault plan makes it fail).
-    Send { data: Vec<u8>, err: Option<UsbErr> },
-    /// `read_bulk` with a buffer of `buf_len` bytes.
-    Recv { buf_len: usize, res: Result<Vec<u8>, UsbErr> },
+    Control { request_type: u8, request: u8, value: u16, index: u16, timeout_ms: u64, err: Option<UsbErr> },
+    /// bytes handed to `write_bulk` (also when the fault plan makes it fail) and its timeout.
+    Send { data: Vec<u8>, timeout_ms: u64, err: Option<UsbErr> },
+    /// `read_bulk` with a buffer of `buf_len` bytes and its timeout.
+    Recv { buf_len: usize, timeout_ms: u64, res: Result<Vec<u8>, UsbErr> },
 }
 
 #[derive(Clone, Debug, PartialEq, Eq)]
@@ -514,6 +517,8 @@ struct Responses {
     final_pkt: Option<Vec<u8>>,
     recv_errs: BTreeMap<u32, UsbErr>,
     n_recv: u32,
+    /// the receive that would deliver the final ack times out once; the ack stays queued
+    late_final: bool,
 }
 
 pub struct DevState {
@@ -536,11 +541,19 @@ pub struct DevState {
     pub runaway: bool,
     n_control: u32,
     n_clear_halt: u32,
+    /// packets of EARLIER commands the host has not fetched yet: the bulk-in pipe is a FIFO,
+    /// a new command does not make them disappear (only clear_halt flushes)
+    pipe: std::collections::VecDeque<Vec<u8>>,
     resp: Responses,
 }
 
 pub struct FakeUsb {
     pub st: Mutex<DevState>,
+}
+
+/// timeout handed to the transport, in whole milliseconds (saturating)
+pub fn dur_ms(d: Duration) -> u64 {
+    d.as_millis().min(u64::MAX as u128) as u64
 }
 
 fn filler(i: usize) -> u8 {
@@ -600,7 +613,7 @@ impl DevState {
     fn handle_command(&mut self, buf: &[u8]) {
         let idx = self.txn - 1;
         let faults: Vec<Fault> = self.cfg.faults.get(&idx).cloned().unwrap_or_default();
-        self.resp = Responses::default();
+        self.retire_responses();
         let info = match decode_cmd(buf) {
             Some(i) => i,
             None => {
@@ -662,6 +675,7 @@ impl DevState {
         scd.extend_from_slice(&self.cfg.pending_timeout_ms.to_le_bytes());
         let pending_pkt = build_ack(STATUS_SUCCESS, ACK_PENDING, id, &scd);
         let mut no_ack = false;
+        let mut late_final = false;
         let mut pending_override = BTreeMap::new();
         let mut recv_errs = BTreeMap::new();
         for f in &faults {
@@ -672,6 +686,7 @@ impl DevState {
                 }
                 Fault::Pendings(n) => n_pending = *n,
                 Fault::NoAck => no_ack = true,
+                Fault::LateAck => late_final = true,
                 Fault::OnPending(k, inner) => {
                     let e = pending_override.entry(*k).or_insert_with(|| pending_pkt.clone());
                     mutate(e, inner);
@@ -699,10 +714,35 @@ impl DevState {
             final_pkt: if no_ack { None } else { Some(final_pkt) },
             recv_errs,
             n_recv: 0,
+            late_final,
         };
     }
 
+    /// A new command arrives (or the send failed): what the device had produced for the
+    /// previous command and the host did not fetch stays in the bulk-in pipe.  (An endless
+    /// stream of pending acks ends here: the device stops working on the old command.)
+    fn retire_responses(&mut self) {
+        let old = std::mem::take(&mut self.resp);
+        let left = old.n_pending.saturating_sub(old.sent);
+        if left <= 1000 {
+            for k in old.sent..old.n_pending {
+                self.pipe.push_back(old.pending_override.get(&k).cloned().unwrap_or_else(|| old.pending_pkt.clone()));
+            }
+            if let Some(f) = old.final_pkt {
+                self.pipe.push_back(f);
+            }
+        }
+    }
+
+    /// Is the next packet the final ack of the current command (nothing older queued)?
+    fn next_is_final(&self) -> bool {
+        self.pipe.is_empty() && self.resp.sent >= self.resp.n_pending && self.resp.final_pkt.is_some()
+    }
+
     fn next_packet(&mut self) -> Option<Vec<u8>> {
+        if let Some(p) = self.pipe.pop_front() {
+            return Some(p);
+        }
         let r = &mut self.resp;
         if r.sent < r.n_pending {
             let k = r.sent;
@@ -710,6 +750,11 @@ impl DevState {
             return Some(r.pending_override.get(&k).cloned().unwrap_or_else(|| r.pending_pkt.clone()));
         }
         r.final_pkt.take()
+    }
+
+    /// number of packets waiting in the bulk-in pipe from earlier commands
+    pub fn stale_packets(&self) -> usize {
+        self.pipe.len()
     }
 
     /// Take (and clear) the wire log.
@@ -741,6 +786,7 @@ impl FakeUsb {
                 runaway: false,
                 n_control: 0,
                 n_clear_halt: 0,
+                pipe: std::collections::VecDeque::new(),
                 resp: Responses::default(),
             }),
         })
@@ -792,7 +838,7 @@ impl VerifUsb for FakeUsb {
         }
     }
 
-    fn read_bulk(&self, endpoint: u8, buf: &mut [u8], _timeout: Duration) -> Result<usize, LibUsbError> {
+    fn read_bulk(&self, endpoint: u8, buf: &mut [u8], timeout: Duration) -> Result<usize, LibUsbError> {
         let mut st = self.lock();
         if endpoint != EP_CTRL_IN {
             return Err(LibUsbError::Timeout);
@@ -804,13 +850,20 @@ impl VerifUsb for FakeUsb {
             st.runaway = true;
             if st.log_wire {
                 let buf_len = buf.len();
-                st.wire.push(Wire::Recv { buf_len, res: Err(UsbErr::NoDevice) });
+                st.wire.push(Wire::Recv { buf_len, timeout_ms: dur_ms(timeout), res: Err(UsbErr::NoDevice) });
             }
             return Err(LibUsbError::NoDevice);
         }
         let res: Result<Vec<u8>, UsbErr> = if let Some(e) = st.resp.recv_errs.get(&nth).copied() {
-            let _lost = st.next_packet();
+            // a timed-out transfer moves no data: the packet stays queued; any other transfer
+            // error loses the packet that was on its way
+            if e != UsbErr::Timeout {
+                let _lost = st.next_packet();
+            }
             Err(e)
+        } else if st.resp.late_final && st.next_is_final() {
+            st.resp.late_final = false;
+            Err(UsbErr::Timeout)
         } else {
             match st.next_packet() {
                 None => Err(UsbErr::Timeout),
@@ -829,12 +882,12 @@ impl VerifUsb for FakeUsb {
         };
         if st.log_wire {
             let buf_len = buf.len();
-            st.wire.push(Wire::Recv { buf_len, res });
+            st.wire.push(Wire::Recv { buf_len, timeout_ms: dur_ms(timeout), res });
         }
         out
     }
 
-    fn write_bulk(&self, endpoint: u8, buf: &[u8], _timeout: Duration) -> Result<usize, LibUsbError> {
+    fn write_bulk(&self, endpoint: u8, buf: &[u8], timeout: Duration) -> Result<usize, LibUsbError> {
         let mut st = self.lock();
         if endpoint != EP_CTRL_OUT {
             return Err(LibUsbError::Pipe);
@@ -845,10 +898,10 @@ impl VerifUsb for FakeUsb {
             fs.iter().find_map(|f| if let Fault::SendErr(e) = f { Some(*e) } else { None })
         });
         if st.log_wire {
-            st.wire.push(Wire::Send { data: buf.to_vec(), err: send_err });
+            st.wire.push(Wire::Send { data: buf.to_vec(), timeout_ms: dur_ms(timeout), err: send_err });
         }
         if let Some(e) = send_err {
-            st.resp = Responses::default();
+            st.retire_responses();
             return Err(e.to_lib());
         }
         st.handle_command(buf);
@@ -865,6 +918,7 @@ impl VerifUsb for FakeUsb {
         }
         // clearing a halt flushes whatever the device still had queued
         st.resp = Responses::default();
+        st.pipe.clear();
         err.map_or(Ok(()), |e| Err(e.to_lib()))
     }
 
@@ -875,14 +929,14 @@ impl VerifUsb for FakeUsb {
         value: u16,
         index: u16,
         _buf: &[u8],
-        _timeout: Duration,
+        timeout: Duration,
     ) -> Result<usize, LibUsbError> {
         let mut st = self.lock();
         let n = st.n_control;
         st.n_control += 1;
         let err = st.cfg.control_err.and_then(|(k, e)| (k == n).then_some(e));
         if st.log_wire {
-            st.wire.push(Wire::Control { request_type, request, value, index, err });
+            st.wire.push(Wire::Control { request_type, request, value, index, timeout_ms: dur_ms(timeout), err });
         }
         err.map_or(Ok(0), |e| Err(e.to_lib()))
     }
@@ -977,35 +1031,35 @@ pub fn wire_stat(wire: &[Wire]) -> WireStat {
     for w in wire {
         let h = st.hash;
         st.hash = match w {
-            Wire::Send { data, err } => {
+            Wire::Send { data, timeout_ms, err } => {
                 st.sends += 1;
-                fnv_b(fnv_n(fnv_n(fnv_n(h, 1), err_code(*err)), data.len() as u64), data)
+                fnv_b(fnv_n(fnv_n(fnv_n(fnv_n(h, 1), *timeout_ms), err_code(*err)), data.len() as u64), data)
             }
-            Wire::Recv { buf_len, res: Ok(p) } => {
+            Wire::Recv { buf_len, timeout_ms, res: Ok(p) } => {
                 st.recvs += 1;
-                fnv_b(fnv_n(fnv_n(fnv_n(h, 2), *buf_len as u64), p.len() as u64), p)
+                fnv_b(fnv_n(fnv_n(fnv_n(fnv_n(h, 2), *timeout_ms), *buf_len as u64), p.len() as u64), p)
             }
-            Wire::Recv { buf_len, res: Err(e) } => {
+            Wire::Recv { buf_len, timeout_ms, res: Err(e) } => {
                 st.recvs += 1;
-                fnv_n(fnv_n(fnv_n(h, 3), *buf_len as u64), err_code(Some(*e)))
+                fnv_n(fnv_n(fnv_n(fnv_n(h, 3), *timeout_ms), *buf_len as u64), err_code(Some(*e)))
             }
             Wire::Claim(_, e) => {
                 st.ctls += 1;
-                fnv_n(fnv_n(fnv_n(h, 4), 0), err_code(*e))
+                fnv_n(fnv_n(fnv_n(fnv_n(h, 4), 0), err_code(*e)), 0)
             }
             Wire::Release(_, e) => {
                 st.ctls += 1;
-                fnv_n(fnv_n(fnv_n(h, 4), 1), err_code(*e))
+                fnv_n(fnv_n(fnv_n(fnv_n(h, 4), 1), err_code(*e)), 0)
             }
-            Wire::Control { index, err, .. } => {
+            Wire::Control { index, timeout_ms, err, .. } => {
                 st.ctls += 1;
                 let code = if *index == EP_CTRL_IN as u16 { 2 } else { 3 };
-                fnv_n(fnv_n(fnv_n(h, 4), code), err_code(*err))
+                fnv_n(fnv_n(fnv_n(fnv_n(h, 4), code), err_code(*err)), *timeout_ms)
             }
             Wire::ClearHalt(ep, e) => {
                 st.ctls += 1;
                 let code = if *ep == EP_CTRL_IN { 4 } else { 5 };
-                fnv_n(fnv_n(fnv_n(h, 4), code), err_code(*e))
+                fnv_n(fnv_n(fnv_n(fnv_n(h, 4), code), err_code(*e)), 0)
             }
         };
     }
